@@ -10,9 +10,11 @@
 import ast
 import re
 
-from sa.interp import alpha, Interp, Scenario, Sym, Const, Bytes, render, merge_consts
+from sa.interp import alpha, Interp, Scenario, Sym, Const, Bytes, render, merge_consts, lin_norm, lin_add
 from sa.loader import AnalysisError, dotted
 from sa import codec
+from sa.condtab import same, skeleton
+from sa.looppaths import observe, path_cond, atom_value, fact_texts, fresh_objects
 
 noinline = lambda f: False  # noqa: E731
 
@@ -31,18 +33,19 @@ def run(rep, prog, tier):
     if it is None:
         raise AnalysisError('PGPMessage.__iter__ vanished')
     rep.saw(fn=it)
-    S = 'self._signatures'
+    me = it.params[0]
+    S = '%s._signatures' % me
     grammar = {
         'cleartext': (False, [['EACH($1 in %s;$1)' % S]]),
-        'encrypted': (True, [['EACH($1 in %s;$1)' % S, 'EACH($2 in self._sessionkeys;$2)', 'self.message']]),
-        'literal': (False, [['OPS', 'self._message', 'self._mdc', 'SIGS'], ['OPS', 'self._message', 'SIGS']]),
+        'encrypted': (True, [['EACH($1 in %s;$1)' % S, 'EACH($2 in %s._sessionkeys;$2)' % me, '%s.message' % me]]),
+        'literal': (False, [['OPS', '%s._message' % me, '%s._mdc' % me, 'SIGS'], ['OPS', '%s._message' % me, 'SIGS']]),
     }
     for kind, (enc, allowed) in grammar.items():
-        sc = Scenario(inline=noinline, bind={'self.type': Const(kind), 'self.is_encrypted': Const(enc)})
+        sc = Scenario(inline=noinline, bind={'%s.type' % me: Const(kind), '%s.is_encrypted' % me: Const(enc)})
         outs = Interp(prog, sc).run(it)
         rep.analysed['paths'] += len(outs)
         for s in outs:
-            ys = alpha('\x00'.join(render(y) for y in s.yields)).split('\x00') if s.yields else []
+            ys = alpha('\x00'.join(each_of(render(y), i) for i, y in enumerate(s.yields))).split('\x00') if s.yields else []
             if kind != 'literal':
                 rep.check(ys in allowed, 'C20.1', 'PGPMessage.__iter__', '%s: %s' % (kind, ys),
                           {'cleartext': 'a cleartext message is followed by its signatures only',
@@ -58,65 +61,67 @@ def run(rep, prog, tier):
                       expected='OPS* literal [mdc] SIG*', found=ys, scenario=kind)
             if not (m_ops and m_sig):
                 continue
-            A, B = m_ops.group(2), m_sig.group(2)
+            A, B = uncopied(m_ops.group(2)), uncopied(m_sig.group(2))
             rev_ok = A in ('reversed(%s)' % B, '%s[::-1]' % B) and m_ops.group(1) == m_ops.group(3) and m_sig.group(1) == m_sig.group(3)
             rep.check(rev_ok and B == S, 'C20.2', 'PGPMessage.__iter__', 'one-pass over %s, signatures over %s' % (A, B),
                       'the one-pass packets must be the exact reverse of the trailing signatures over the message\'s own signature collection '
                       '(two independent sorts disagree on signatures with equal creation times)', where=it.where,
                       expected='reversed(%s) / %s' % (S, S), found='%s / %s' % (A, B), scenario=kind)
-    # ---- C20.4 flag
-    loops = [n for n in ast.walk(it.node) if isinstance(n, ast.For) and 'make_onepass' in ast.unparse(n)]
-    if len(loops) != 1:
+    # ---- C20.4 flag: decided on the paths of one iteration of the loop that yields the one-pass packets
+    _, recs = observe(prog, it, bind={'%s.type' % me: Const('literal'), '%s.is_encrypted' % me: Const(False)})
+    ops_loops = [r for r in recs if any('%s.make_onepass()' % r.var in ys for _, _, _, ys in r.paths)]
+    if len({id(r.node) for r in ops_loops}) != 1:
         raise AnalysisError('PGPMessage.__iter__: one-pass loop not found')
-    L = loops[0]
-    var = ast.unparse(L.target)
-    coll = ast.unparse(L.iter)
-    m = re.match(r'^reversed\((.*)\)$', coll)
-    base = m.group(1) if m else None
-    ifs = [n for n in L.body if isinstance(n, ast.If)]
-    flag_ok = False
-    found = None
-    if len(ifs) == 1 and base is not None:
-        t = ast.unparse(ifs[0].test).replace(' ', '')
-        body = [ast.unparse(x).replace(' ', '') for x in ifs[0].body]
-        found = '%s -> %s' % (ast.unparse(ifs[0].test), body)
-        sets_true = len(body) == 1 and re.match(r'^\w+\.nested=True$', body[0]) is not None and not ifs[0].orelse
-        last_yielded = t in ('%sis%s[0]' % (var, base), '%s[0]is%s' % (base, var))
-        flag_ok = sets_true and last_yielded
-    if base is None:
-        # order rule C20.2 has already reported the iteration form; the flag rule cannot be evaluated on it
-        if not any(f.rule == 'C20.2' for f in rep.findings):
-            rep.error('C20.4', 'PGPMessage.__iter__: one-pass loop iterates %s (unrecognised form)' % coll)
-    else:
-      rep.check(flag_ok, 'C20.4', 'PGPMessage.__iter__', 'flag rule: %s' % found,
-              'the flag octet must be 1 exactly on the one-pass packet yielded last - the one for the first trailing signature - and 0 on all others '
-              '(RFC 4880 5.4: zero means another one-pass packet follows)', where='%s:%d' % (it.module.relpath, L.lineno),
-              expected='if %s is %s[0]: ops.nested = True' % (var, base), found=found)
-    # the flagged object is the one yielded
-    ys = [n for n in ast.walk(L) if isinstance(n, ast.Yield)]
-    asg = [n for n in L.body if isinstance(n, ast.Assign) and 'make_onepass' in ast.unparse(n.value)]
-    ok = len(ys) == 1 and len(asg) == 1 and ast.unparse(ys[0].value) == ast.unparse(asg[0].targets[0]) and \
-        ast.unparse(asg[0].value) == '%s.make_onepass()' % var
-    rep.check(ok, 'C20.4', 'PGPMessage.__iter__', 'yielded object', 'the packet that is flagged is the packet that is yielded, built from the loop\'s signature',
-              where=it.where)
+    for r in ops_loops:
+        m = re.match(r'^reversed\((.*)\)$', uncopied(r.coll)) or re.match(r'^(.*)\[::-1\]$', uncopied(r.coll))
+        base = m.group(1) if m else None
+        pkt = '%s.make_onepass()' % r.var
+        flagged, shape_ok = [], not r.conds
+        found = []
+        for status, facts, events, ys in r.paths:
+            sets = [(e[1], e[2]) for e in events if e[0] == 'store' and e[1].endswith('.nested')]
+            found.append((fact_texts(facts), sets, ys))
+            # the packet that is flagged is the packet that is yielded, built from the loop's signature
+            built = [e for e in events if e[0] == 'call' and e[1] == '%s.make_onepass' % r.var]
+            shape_ok = shape_ok and ys == [pkt] and status in ('normal', 'continue') and len(built) == 1
+            if sets:
+                # `ops.nested = True` under a decision, or `ops.nested = <condition>` on every path: flagged when both hold
+                shape_ok = shape_ok and len(sets) == 1 and sets[0][0] == '%s.nested' % pkt
+                flagged.append(('and', [path_cond(facts), skeleton(sets[0][1])]))
+        rep.check(shape_ok, 'C20.4', 'PGPMessage.__iter__', 'yielded object %s' % found, 'the packet that is flagged is the packet that is yielded, built from the loop\'s signature',
+                  where=it.where)
+        if base is None:
+            # order rule C20.2 has already reported the iteration form; the flag rule cannot be evaluated on it
+            if not any(f.rule == 'C20.2' for f in rep.findings):
+                rep.error('C20.4', 'PGPMessage.__iter__: one-pass loop iterates %s (unrecognised form)' % r.text)
+            continue
+        last = [skeleton('%s is %s[0]' % (r.var, base))]
+        flag_ok = bool(flagged) and any(same(('or', flagged), x) for x in last)
+        rep.check(flag_ok, 'C20.4', 'PGPMessage.__iter__', 'flag rule: %s' % found,
+                  'the flag octet must be 1 exactly on the one-pass packet yielded last - the one for the first trailing signature - and 0 on all others '
+                  '(RFC 4880 5.4: zero means another one-pass packet follows)', where='%s:%d' % (it.module.relpath, r.node.lineno),
+                  expected='if %s is %s[0]: ops.nested = True' % (r.var, base), found=found)
     ops_cls = prog.cls('pgpy.packet.packets', 'OnePassSignatureV3')
     ini = ops_cls.methods['__init__']
-    dflt = [ast.unparse(n.value) for n in ast.walk(ini.node) if isinstance(n, ast.Assign) and ast.unparse(n.targets[0]) == 'self.nested']
+    dflt = []
+    for s in Interp(prog, Scenario(inline=noinline)).run(ini):
+        dflt.extend(v for p_, v, l, _ in s.stores if p_ == '%s.nested' % ini.params[0])
     rep.check(dflt == ['False'], 'C20.4', 'OnePassSignatureV3.__init__', 'nested default %s' % dflt, 'a fresh one-pass packet is not flagged', where=ini.where)
 
     # ---- C20.3 make_onepass
     mo = prog.method('pgpy.pgp', 'PGPSignature', 'make_onepass')
     rep.saw(fn=mo)
+    me = mo.params[0]
     for s in Interp(prog, Scenario(inline=noinline)).run(mo):
         st = {p: v for p, v, l, _ in s.stores}
         obj = render(s.ret)
-        want = {'%s.sigtype' % obj: 'self.type', '%s.halg' % obj: 'self.hash_algorithm', '%s.pubalg' % obj: 'self.key_algorithm',
-                '%s.signer' % obj: 'self.signer'}
+        want = {'%s.sigtype' % obj: '%s.type' % me, '%s.halg' % obj: '%s.hash_algorithm' % me, '%s.pubalg' % obj: '%s.key_algorithm' % me,
+                '%s.signer' % obj: '%s.signer' % me}
         for k, v in want.items():
             rep.check(st.get(k) == v, 'C20.3', 'PGPSignature.make_onepass', '%s = %s' % (k, st.get(k)),
                       'the one-pass packet must name its own signature\'s %s' % k.split('.')[-1], where=mo.where, expected=v, found=st.get(k))
         ctor = [c for c in s.calls if c[0] == 'OnePassSignatureV3']
-        self_stores = [p for p in st if p.startswith('self.')]
+        self_stores = [p for p in st if p.startswith(me + '.')]
         rep.check(len(ctor) == 1 and not self_stores and s.facts == [], 'C20.3', 'PGPSignature.make_onepass',
                   'fresh packet each call (constructors %d, stores on self %s, conditions %s)' % (len(ctor), self_stores, [f[0] for f in s.facts]),
                   'a new one-pass packet must be built on every call: a cached packet keeps a flag set by an earlier export', where=mo.where)
@@ -126,78 +131,181 @@ def run(rep, prog, tier):
 
     # ---- C20.5 compression
     ba = M.methods['__bytearray__']
-    for s in Interp(prog, Scenario(inline=noinline, bind={'self.is_compressed': Const(True)})).run(ba):
+    me = ba.params[0]
+    for s in Interp(prog, Scenario(inline=noinline, bind={'%s.is_compressed' % me: Const(True)})).run(ba):
         st = {p: v for p, v, l, _ in s.stores}
-        rep.check(st.get('comp.calg') == 'self._compression' and alpha(st.get('comp.packets', '')) in ('EACH($1 in self;$1)', 'list(self)', '[*self]'), 'C20.5', 'PGPMessage.__bytearray__',
+        ret = render(s.ret)
+        m = re.match(r'^(\w+)\.__bytearray__\(\)$', ret)
+        comp = m.group(1) if m and m.group(1) not in ba.params else None           # a locally constructed object renders as its first local
+        fresh = comp is not None and fresh_objects(s.events).get(comp) == 'CompressedData()'
+        everything = ('EACH($1 in %s;$1)' % me, 'list(%s)' % me, '[*%s]' % me, 'tuple(%s)' % me)
+        rep.check(fresh and st.get('%s.calg' % comp) == '%s._compression' % me and alpha(st.get('%s.packets' % comp, '')) in everything, 'C20.5', 'PGPMessage.__bytearray__',
                   'compressed: %s' % st, 'the compressed packet holds every packet of the message, with the message\'s algorithm', where=ba.where)
-        order = [e[1] for e in s.events if e[0] == 'call' and e[1] in ('comp.update_hlen', 'comp.__bytearray__')]
-        rep.check(order == ['comp.update_hlen', 'comp.__bytearray__'] and render(s.ret) == 'comp.__bytearray__()', 'C20.5', 'PGPMessage.__bytearray__',
+        order = [e[1] for e in s.events if e[0] == 'call' and e[1] in ('%s.update_hlen' % comp, '%s.__bytearray__' % comp)]
+        set_at = [i for i, e in enumerate(s.events) if e[0] == 'store' and e[1] in ('%s.calg' % comp, '%s.packets' % comp)]
+        upd_at = [i for i, e in enumerate(s.events) if e[0] == 'call' and e[1] == '%s.update_hlen' % comp]
+        rep.check(order == ['%s.update_hlen' % comp, '%s.__bytearray__' % comp] and bool(set_at) and max(set_at) < upd_at[0], 'C20.5', 'PGPMessage.__bytearray__',
                   'update_hlen before serialising %s' % order, 'the compressed packet\'s length is recomputed before it is written, and it is the whole output',
                   where=ba.where)
-    for s in Interp(prog, Scenario(inline=noinline, bind={'self.is_compressed': Const(False)})).run(ba):
-        rep.check(alpha(render(s.ret)) == 'EACH($1 in self;$1.__bytearray__())', 'C20.5', 'PGPMessage.__bytearray__', 'uncompressed: %s' % render(s.ret),
+    for s in Interp(prog, Scenario(inline=noinline, bind={'%s.is_compressed' % me: Const(False)})).run(ba):
+        rep.check(alpha(render(s.ret)) == 'EACH($1 in %s;$1.__bytearray__())' % me, 'C20.5', 'PGPMessage.__bytearray__', 'uncompressed: %s' % render(s.ret),
                   'an uncompressed message is the concatenation of its packets in order', where=ba.where)
     ic = M.methods['is_compressed']
-    for s in Interp(prog, Scenario(inline=noinline)).run(ic):
-        rep.check(render(s.ret).replace(' ', '') == '(self._compression!=CompressionAlgorithm.Uncompressed)', 'C20.5', 'PGPMessage.is_compressed', render(s.ret),
-                  'a message is compressed unless its algorithm is Uncompressed', where=ic.where)
+    outs = Interp(prog, Scenario(inline=noinline)).run(ic)
+    unc = '%s._compression %%s CompressionAlgorithm.Uncompressed' % ic.params[0]
+    okc = value_is(outs, [('not', skeleton(unc % '==')), ('not', skeleton(unc % 'is'))])
+    rep.check(okc, 'C20.5', 'PGPMessage.is_compressed', '%s' % [(fact_texts(s.facts), render(s.ret)) for s in outs],
+              'a message is compressed unless its algorithm is Uncompressed', where=ic.where)
     orf = M.methods['__or__']
-    arm = [n for n in orf.node.body if isinstance(n, ast.If) and ast.unparse(n.test) == 'isinstance(other, CompressedData)']
-    ok = len(arm) == 1
-    if ok:
-        b = [ast.unparse(x).replace(' ', '') for x in arm[0].body]
-        ok = b[0] == 'self._compression=other.calg' and 'forpktinother.packets:' in b[1] and 'self|=pkt' in b[1] and b[-1] == 'returnself'
+    me, o = orf.params[0], orf.params[1]
+    outs, recs = observe(prog, orf, args={o: Sym(o, types={'CompressedData'}, nonnull=True)})
+    live = [s for s in outs if s.raised is None]
+    ok = bool(live)
+    for s in live:
+        # `self |= pkt` keeps self (every return of __or__ is `return self`): stores on the result of the chain are stores on self
+        st = [('%s.%s' % (root_of(p.rsplit('.', 1)[0]), p.rsplit('.', 1)[1]) if '.' in p else p, v) for p, v, l, _ in s.stores]
+        ok = ok and st == [('%s._compression' % me, '%s.calg' % o)] and root_of(render(s.ret)) == me
+    inner = [r for r in recs if r.coll == '%s.packets' % o]
+    ok = ok and len(inner) >= 1
+    for r in inner:
+        for status, facts, events, ys in r.paths:
+            adds = [(e[1], e[2]) for e in events if e[0] == 'ior']
+            ok = ok and not r.conds and len(adds) == 1 and root_of(adds[0][0]) == me and adds[0][1] == r.var and status in ('normal', 'continue')
     rep.check(ok, 'C20.5', 'PGPMessage.__or__', 'CompressedData arm', 'importing a compressed packet restores the algorithm and adds every inner packet',
               where=orf.where)
     cd = prog.cls('pgpy.packet.packets', 'CompressedData')
-    for s in Interp(prog, Scenario()).run(cd.methods['__bytearray__']):
+    cb = cd.methods['__bytearray__']
+    me = cb.params[0]
+    for s in Interp(prog, Scenario()).run(cb):
         r = render(s.ret)
-        rep.check(alpha(r) == 'self.header.__bytearray__() BYTE(self.calg) self.calg.compress(EACH($1 in self.packets;$1.__bytearray__()))', 'C20.5',
+        exp = '%s.header.__bytearray__() BYTE(%s.calg) %s.calg.compress(EACH($1 in %s.packets;$1.__bytearray__()))' % (me, me, me, me)
+        rep.check(alpha(r) == exp, 'C20.5',
                   'CompressedData.__bytearray__', r, 'a compressed packet is the algorithm octet and the compression of all inner packets together',
-                  where=cd.where)
+                  where=cd.where, expected=exp, found=r)
 
     # ---- C20.6 layouts
     ops = ops_cls.methods['__bytearray__']
+    me = ops.params[0]
     for s in Interp(prog, Scenario()).run(ops):
         r = render(s.ret)
-        exp = "self.header.__bytearray__() BYTE(self.sigtype) BYTE(self.halg) BYTE(self.pubalg) binascii.unhexlify(self.signer.encode('latin-1')) BYTE(int(self.nested))"
+        exp = ("%s.header.__bytearray__() BYTE(%s.sigtype) BYTE(%s.halg) BYTE(%s.pubalg) binascii.unhexlify(%s.signer.encode('latin-1')) BYTE(int(%s.nested))"
+               % ((me,) * 6))
         rep.check(r == exp, 'C20.6', 'OnePassSignatureV3.__bytearray__', r, 'one-pass packet: type, hash, pk algorithm, 8-octet key id, flag (RFC 4880 5.4)',
                   where=ops.where, expected=exp, found=r)
-    src = ast.unparse(ops_cls.methods['parse'].node).replace(' ', '')
-    order = [m for m in re.findall(r'self\.(\w+)=packet', src)]
-    rep.check(order == ['sigtype', 'halg', 'pubalg', 'signer', 'nested'] and 'self.nested=packet[0]==1' in src, 'C20.6', 'OnePassSignatureV3.parse', 'reads %s' % order,
-              'the reader takes the fields in the same order', where=ops_cls.where)
+    op = ops_cls.methods['parse']
+    me, B = op.params[0], op.params[1]
+    for s in Interp(prog, Scenario(inline=noinline, forward_stores=False, model_del=False)).run(op):
+        reads, problems = codec.reader_sequence(s, B, cls=ops_cls)
+        fields = [(r.target, r.width) for r in reads if r.kind != 'delegate']
+        flag = [r.text for r in reads if r.target == '%s.nested' % me]
+        want = [('%s.%s' % (me, a), w) for a, w in (('sigtype', '1'), ('halg', '1'), ('pubalg', '1'), ('signer', '8'), ('nested', '1'))]
+        # the flag is the truth of the last octet: `octet == 1` (either operand order), `octet != 0`, bool(octet) - as boolean functions
+        flag_ok = bool(flag) and any(same(skeleton(flag[0]), skeleton(t % B)) for t in ('%s[0] == 1', '%s[0] != 0', 'bool(%s[0])'))
+        rep.check(fields == want and not problems and flag_ok, 'C20.6', 'OnePassSignatureV3.parse',
+                  'reads %s flag %s' % (fields, flag), 'the reader takes the fields in the same order', where=ops_cls.where, expected=want, found=fields)
     lit = prog.cls('pgpy.packet.packets', 'LiteralData')
-    for s, items in codec.writer_items(prog, lit.methods['__bytearray__'], Scenario()):
+    lp = lit.methods['parse']
+    pme, B = lp.params[0], lp.params[1]
+    rc = None
+    for s in Interp(prog, Scenario(inline=noinline, forward_stores=False, model_del=False)).run(lp):
+        reads, problems = codec.reader_sequence(s, B, cls=lit)
+        fields = [r for r in reads if r.kind != 'delegate']
+        shape = [(r.target if (r.target or '').startswith(pme + '.') else '<local>', r.width) for r in fields]
+        ok = len(fields) == 5 and not problems
+        if ok:
+            nl = fields[1].text                                   # the name-length octet, by value
+            want = [('%s.format' % pme, '1'), ('<local>', '1'), ('%s.filename' % pme, lin_norm(nl)), ('%s.mtime' % pme, '4'),
+                    ('%s._contents' % pme, lin_add(lin_add('%s.header.length' % pme, nl, -1), '6', -1))]
+            ok = shape == want and nl == '%s[0]' % B
+            mc = re.match(r"^SLICE\(%s;;%s\)\.decode\((?:'([^']*)')?(?:, '[^']*')?\)$" % (re.escape(B), re.escape(nl)), fields[2].text)
+            rc = (mc.group(1) or 'utf-8') if mc else None
+        rep.check(ok, 'C20.6', 'LiteralData.parse', 'reads %s' % shape,
+                  'contents = header.length - (6 + name length): format(1) + name length(1) + time(4) = 6 octets precede the contents besides the name',
+                  where=lit.where, found=shape)
+    lb = lit.methods['__bytearray__']
+    me = lb.params[0]
+    for s, items in codec.writer_items(prog, lb, Scenario()):
         r = render(s.ret)
-        exp = ("self.header.__bytearray__() self.format.encode('latin-1') BYTE(len(FN)) FN INT(4;calendar.timegm(self.mtime.utctimetuple())) self._contents")
-        m = re.match(r"^self\.header\.__bytearray__\(\) self\.format\.encode\('latin-1'\) BYTE\(len\((.*?)\)\) (.*?) INT\(4;calendar\.timegm\(self\.mtime\.utctimetuple\(\)\)\) self\._contents$", r)
-        rep.check(m is not None and m.group(1) == m.group(2) and m.group(1).startswith('self.filename.encode('), 'C20.6', 'LiteralData.__bytearray__', r,
+        exp = ("%s.header.__bytearray__() %s.format.encode('latin-1') BYTE(len(FN)) FN INT(4;calendar.timegm(%s.mtime.utctimetuple())) %s._contents" % ((me,) * 4))
+        m = re.match(r"^%s\.header\.__bytearray__\(\) %s\.format\.encode\('latin-1'\) BYTE\(len\((.*?)\)\) (.*?) INT\(4;calendar\.timegm\(%s\.mtime\.utctimetuple\(\)\)\) %s\._contents$"
+                     % ((re.escape(me),) * 4), r)
+        rep.check(m is not None and m.group(1) == m.group(2) and m.group(1).startswith('%s.filename.encode(' % me), 'C20.6', 'LiteralData.__bytearray__', r,
                   'literal packet: format octet, one-octet length of the ENCODED file name, the encoded file name, four-octet time, contents',
                   where=lit.where, expected=exp, found=r)
-        wcodec = re.search(r"self\.filename\.encode\('([^']*)'\)", r)
-        psrc = ast.unparse(lit.methods['parse'].node)
-        rcodec = re.search(r"self\.filename = packet\[:fnl\]\.decode\((?:'([^']*)')?\)", psrc)
-        rc = (rcodec.group(1) or 'utf-8') if rcodec else None
-        rep.check(wcodec is not None and rc is not None and wcodec.group(1).lower().replace('_', '-') == rc.lower().replace('_', '-'), 'C20.6',
-                  'LiteralData filename codec', 'writer %s reader %s' % (wcodec.group(1) if wcodec else None, rc),
+        wcodec = re.search(r"%s\.filename\.encode\((?:'([^']*)')?\)" % re.escape(me), r)
+        wc = (wcodec.group(1) or 'utf-8') if wcodec else None
+        rep.check(wc is not None and rc is not None and wc.lower().replace('_', '-') == rc.lower().replace('_', '-'), 'C20.6',
+                  'LiteralData filename codec', 'writer %s reader %s' % (wc, rc),
                   'the file name must be written with the codec it is read with', where=lit.where)
-    psrc = ast.unparse(lit.methods['parse'].node).replace(' ', '')
-    rep.check('self._contents=packet[:self.header.length-(6+fnl)]' in psrc and 'delpacket[:self.header.length-(6+fnl)]' in psrc, 'C20.6', 'LiteralData.parse',
-              'contents = header.length - (6 + name length)', 'format(1) + name length(1) + time(4) = 6 octets precede the contents besides the name', where=lit.where)
     nw = M.methods['new']
     for sens, fn in ((True, "'_CONSOLE'"), (False, "os.path.basename('')")):
-        sc = Scenario(inline=noinline, join_unknown=True, args={'message': Sym('message', types={'str'}, nonnull=True)},
-                      axioms={"kwargs.pop('cleartext', False)": False, "kwargs.pop('sensitive', False)": sens,
-                              "(kwargs.pop('file', False) and os.path.isfile(message))": False, "kwargs.pop('file', False)": False})
+        kw = nw.node.args.kwarg.arg if nw.node.args.kwarg else 'kwargs'
+        options = {'cleartext': False, 'sensitive': sens, 'file': False}
+
+        def option(t, kw=kw, options=options):
+            """The caller's options, however they are taken out of the keyword arguments."""
+            m = re.match(r"^(?:bool\()?%s\.(?:pop|get)\('(\w+)'(?:, (?:False|None))?\)\)?$" % re.escape(kw), t)
+            return options.get(m.group(1)) if m else None
+        sc = Scenario(inline=noinline, join_unknown=True, args={'message': Sym('message', types={'str'}, nonnull=True)}, oracle=option)
         for s in Interp(prog, sc).run(nw):
             st = {p: v for p, v, l, _ in s.stores}
-            rep.check(st.get('lit.filename') == fn, 'C20.6', 'PGPMessage.new', 'sensitive=%s -> filename %s' % (sens, st.get('lit.filename')),
-                      'a sensitive message carries the for-your-eyes-only marker _CONSOLE as its file name', where=nw.where, expected=fn, found=st.get('lit.filename'))
+            lits = sorted({p[:-len('.filename')] for p in st if p.endswith('.filename')})
+            L = lits[0] if len(lits) == 1 else None                 # the literal packet, whatever the local is called
+            fresh = L is not None and fresh_objects(s.events).get(L) == 'LiteralData()'
+            rep.check(fresh and st.get('%s.filename' % L) == fn, 'C20.6', 'PGPMessage.new', 'sensitive=%s -> filename %s' % (sens, st.get('%s.filename' % L)),
+                      'a sensitive message carries the for-your-eyes-only marker _CONSOLE as its file name', where=nw.where, expected=fn, found=st.get('%s.filename' % L))
             comp = [v for k, v in st.items() if k.endswith('._compression')]
-            rep.check(st.get('lit._contents') == 'msg.text_to_bytes(message)' and comp == ["kwargs.pop('compression', CompressionAlgorithm.ZIP)"],
-                      'C20.6', 'PGPMessage.new', 'contents %s compression %s' % (st.get('lit._contents'), comp),
+            msgs = [c for c in s.calls if c[0].endswith('.text_to_bytes') and c[1] == ['message']]
+            body = st.get('%s._contents' % L)
+            rep.check(len(msgs) >= 1 and body == '%s(message)' % msgs[0][0] and
+                      comp in (["%s.pop('compression', CompressionAlgorithm.ZIP)" % kw], ["%s.get('compression', CompressionAlgorithm.ZIP)" % kw]),
+                      'C20.6', 'PGPMessage.new', 'contents %s compression %s' % (body, comp),
                       'contents are the caller\'s message as octets; compression is the caller\'s choice (default ZIP)', where=nw.where)
-            rep.check(any(c[0] == 'lit.update_hlen' for c in s.calls) and 'lit.mtime' in st and 'lit.format' in st, 'C20.6', 'PGPMessage.new',
+            rep.check(any(c[0] == '%s.update_hlen' % L for c in s.calls) and '%s.mtime' % L in st and '%s.format' % L in st, 'C20.6', 'PGPMessage.new',
                       'time, format set; update_hlen', 'the literal packet gets its time and format, and its length is recomputed', where=nw.where)
             break
+
+
+def each_of(y, k=0):
+    """A re-yielded iterable (`yield from X`, rendered '*X') is the loop yielding its elements (its own bound variable)."""
+    if y.startswith('*EACH('):
+        return y[1:]
+    if y.startswith('*'):
+        return 'EACH($9%03d in %s;$9%03d)' % (k, y[1:], k)
+    return y
+
+
+def uncopied(coll):
+    """reversed(list(X)) / list(X) iterate X in X's order: a copy of a collection is the collection, as far as order goes."""
+    prev = None
+    while prev != coll:
+        prev = coll
+        coll = re.sub(r'\b(?:list|tuple)\(((?:[^()]|\([^()]*\))*)\)', r'\1', coll)
+    return coll
+
+
+def root_of(text):
+    """'((X | a) | b)' -> 'X': the object a chain of `|=` attachments started from."""
+    while text.startswith('(') and text.endswith(')'):
+        depth, cut = 0, None
+        for i, ch in enumerate(text):
+            if ch in '([{':
+                depth += 1
+            elif ch in ')]}':
+                depth -= 1
+            elif depth == 1 and text.startswith(' | ', i):
+                cut = i
+        if cut is None:
+            break
+        text = text[1:cut]
+    return text
+
+
+def value_is(outs, expected):
+    """Is the boolean function computed by the returning paths (decisions and returned expression) one of the expected ones?"""
+    terms = []
+    for s in outs:
+        if s.raised is not None or s.ret is None:
+            return False
+        terms.append(('and', [path_cond(s.facts), skeleton(render(s.ret))]))
+    return bool(terms) and any(same(('or', terms), e) for e in expected)
